@@ -32,6 +32,14 @@ CLAIMS = {
    text='Static analysis of the concurrency structure of the sparse kernels, valid for one thread and many alike: the thread-local scratch vector of the triangular solver is never borrowed across a call that can reach rayon, and the union-find mutex of the block splitter is never re-locked while a guard on it is alive. The numerical clauses (A*X = Y, S = D - C A^-1 B, transfer-map identities, block decomposition, scratch returning to zero) are NOT decided.',
    ref='DESIGN.md §3 E5; §4 C12',
    note='Trusted: as C11.'),
+ 'C09': dict(cat='other', tech='static analysis: path-sensitive symbolic summaries of the mirroring wrappers, who-may-write and ordering checks, float taint over MIR',
+   text='Static analysis of necessary conditions of D = P*A*Q, P*P^-1 = I, Q*Q^-1 = I for every matrix and every subset of the transform flags: every elementary row/column operation on the working matrix is mirrored into the requested companions with the same resp. inverse operation (indices, inverted/negated scalar, adjugate 2x2 block), only the wrappers mutate the working matrix, the phases run in the required order, every 2x2 block passed in is a Bezout block of determinant 1, and the exact divisions involve no float at any magnitude. That D is diagonal with a divisibility chain, its agreement with minors, and termination are NOT decided.',
+   ref='DESIGN.md §3 E6, E2; §4 C09',
+   note='Trusted: Mat elementary operations do what their names say; gcdx returns Bezout coefficients.'),
+ 'C10': dict(cat='other', tech='static analysis: path-sensitive symbolic summaries of the mirroring wrappers, who-may-write, float taint over MIR',
+   text='Static analysis of necessary conditions of H = P*A, P*P^-1 = I (and B = P*A for LLL) for every input: swap / unit scaling / row addition on the basis and the HNF row reversal are mirrored into P and, inverted, into P^-1 on every path where they are requested; nothing else mutates the basis; the nearest-integer quotient used for size reduction is float-free (exact for hundreds of digits). Echelon form, reducedness, the Lovasz condition and termination are NOT decided.',
+   ref='DESIGN.md §3 E6, E2; §4 C10',
+   note='Trusted: as C09.'),
 }
 
 NA = {
